@@ -1,6 +1,9 @@
 // C08: the real trip  calls -> SmodelsConvert(ext) -> SmodelsOutput(ext, false atom 0) -> text -> readSmodels(options) -> Recorder,
 // and direct calls of matchDomHeuPred / matchEdgePred.
-// Cases:  0 cEdge cHeuristic filter nprobes probe.. calls..   |   1 len bytes..   |   2 len bytes..
+// Cases:  0 cEdge cHeuristic filter nprobes probe.. calls..   |   1 len bytes..   |   2 len bytes..   |   3 cEdge cHeuristic filter calls..
+// kind 3 (direct): the calls are made on SmodelsOutput(ext, 0) itself, no converter in front - symbol tables that use one name for several
+//   atoms and list the same (atom, name) line again (same table / table of a later step), which SmodelsConvert never writes. Observation as
+//   kind 0 without probes (model: coq/C08/Direct.v).
 // Observation kind 0: the calls the reader delivers (weight rules and minimize statements left out), `21 class` when the
 //   reader fails, then `30 a get(a)` for every probe; just `21 class` when converter / writer fail (nothing is read then).
 // kind 1: code consumed [len name.. type bias prio]     kind 2: code consumed [len n0.. len n1..]
@@ -20,16 +23,17 @@ struct Rec8 : Recorder {
 	void rule(Potassco::Head_t, const Potassco::AtomSpan&, Potassco::Weight_t, const Potassco::WeightLitSpan&) override {}
 	void minimize(Potassco::Weight_t, const Potassco::WeightLitSpan&) override {}
 };
-static void trip(Case& c, Obs& o) {
+static void trip(Case& c, Obs& o, bool direct) {
 	const reuse::Primer* pr = reuse::primed(c) ? &reuse::smodelsPrimer(c, true) : 0;
 	bool cE = c.next() != 0, cH = c.next() != 0, flt = c.next() != 0;
 	std::vector<ll> probes;
-	for (ll n = c.next(); n > 0 && c.more(); --n) { probes.push_back(c.next()); }
+	if (!direct) { for (ll n = c.next(); n > 0 && c.more(); --n) { probes.push_back(c.next()); } }
 	std::stringstream text;
 	Potassco::SmodelsOutput writer(text, true, 0);
 	Potassco::SmodelsConvert conv(writer, true);
+	Potassco::AbstractProgram& front = direct ? static_cast<Potassco::AbstractProgram&>(writer) : conv;
 	try {
-		while (c.more()) { if (!playCall(c, conv)) break; }
+		while (c.more()) { if (!playCall(c, front)) break; }
 	}
 	catch (const std::bad_alloc&) { o.add(21); o.add(3); return; }
 	catch (const std::logic_error&) { o.add(21); o.add(1); return; }
@@ -57,7 +61,7 @@ int main() {
 	Case c; Obs o;
 	while (readCase(c)) {
 		ll kind = c.next();
-		if (kind == 0) { trip(c, o); }
+		if (kind == 0 || kind == 3) { trip(c, o, kind == 3); }
 		else if (kind == 1 || kind == 2) {
 			size_t n = (size_t)c.next();
 			std::string s = c.bytes(n);
